@@ -472,15 +472,23 @@ def run(ck):
     # search inside the executor; it only FINDS candidates - every disagreeing history goes through check_batch (python oracle,
     # monitors) and the verified model like any other history
     nstress = 2500000 if quick else 60000000
-    sout = os.path.join(ck.scratch(), "stress-out.txt")
-    rcs, outs = ck.run_bin(binp, "TestVerifWGLStress", {"VERIF_OUT": sout, "VERIF_STRESS_N": str(nstress), "VERIF_SEED": str(ck.seed % 1000003)}, timeout=3000)
-    if rcs != 0 or not os.path.exists(sout):
-        ck.violation("stress executor failed to run", {"kind": "executor", "rc": rcs, "log_tail": outs[-3000:]}, found_input=False)
-        return
-    sl = open(sout).read().splitlines()
-    ck.cov["stress_search"] = {"histories": int(sl[0].split()[1]) if sl and sl[0].startswith("STRESS") else 0, "candidates": len(sl) - 1,
-                                 "what": "4..10 operations, 2..6 in flight, values from {1} / {1,2} / {0,1} / {1,2,3}, writes dominate, dense or sparse ids; "
-                                         "real CheckEvents vs subset-DP search in the executor; candidates re-checked by the python oracle and the verified model"}
+    sl = ["STRESS 0"]
+    # two passes: a mixed one, and one in which the operation invoked first always stays open until (almost) everything else was
+    # invoked - its id is the lowest bit of the checker's linearized set, the one bit a popcount-xor hash of the set can confuse
+    for pname, pin, nn, minops in (("mixed", 3, nstress * 3 // 5, 4), ("first-open", 10, nstress, 8)):
+        sout = os.path.join(ck.scratch(), "stress-out-%s.txt" % pname)
+        rcs, outs = ck.run_bin(binp, "TestVerifWGLStress", {"VERIF_OUT": sout, "VERIF_STRESS_N": str(nn), "VERIF_STRESS_PIN": str(pin), "VERIF_STRESS_MINOPS": str(minops),
+                                                              "VERIF_SEED": str((ck.seed + pin) % 1000003)}, timeout=3000)
+        if rcs != 0 or not os.path.exists(sout):
+            ck.violation("stress executor failed to run", {"kind": "executor", "rc": rcs, "log_tail": outs[-3000:]}, found_input=False)
+            return
+        part = open(sout).read().splitlines()
+        sl[0] = "STRESS %d" % (int(sl[0].split()[1]) + (int(part[0].split()[1]) if part and part[0].startswith("STRESS") else 0))
+        sl += part[1:21]
+    ck.cov["stress_search"] = {"histories": int(sl[0].split()[1]), "candidates": len(sl) - 1,
+                                 "what": "4..11 operations, 2..6 in flight, values from {1} / {1,2} / {0,1} / {1,2,3}, several write/read/cas mixes, dense or "
+                                         "sparse ids; half of the histories keep the operation invoked first open until the end; "
+                                         "real CheckEvents / checkSingle vs subset-DP search in the executor; candidates re-checked by the python oracle and the verified model"}
     cands = sl[1:41]
     if cands:
         vc = check_batch(ck, binp, cands, "stress-cand", stats)
